@@ -14,6 +14,7 @@ import (
 	"sort"
 	"strings"
 
+	"verif/csnet"
 	"verif/kv"
 	"verif/minichain"
 	"verif/txkit"
@@ -65,6 +66,7 @@ var allCfgs = []poolCfg{
 
 type txSpec struct {
 	Name   string
+	obj    types.Tx // decoded once per process: like a transaction a node received once (hash and sender caches warm)
 	Raw    []byte
 	Hash   common.Hash
 	Sender int // index into accounts, -1: pure confidential (no account input)
@@ -98,7 +100,7 @@ type universe struct {
 	others []int    // indices into txs: CommitOther(x) commits the block [x]
 	byHash map[common.Hash]int
 	pnames map[common.Hash]string // names of the transactions of block 1
-	prefix [][]byte // transactions of block 1 (committed in every instance before the history starts)
+	prefix [][]byte               // transactions of block 1 (committed in every instance before the history starts)
 	bases  map[string]*base
 	walDir string
 	o1, o2 lktypes.Key // key images of the two confidential outputs W0 owns after block 1
@@ -163,7 +165,7 @@ func (u *universe) add(name, class string, tx types.Tx, alphabet bool) int {
 	if err != nil {
 		vk.Fatalf("universe: %s: %v", name, err)
 	}
-	u.txs = append(u.txs, txSpec{Name: name, Raw: raw, Hash: cp.Hash(), Sender: s, Nonce: n, Cost: c, KIs: kis, Class: class})
+	u.txs = append(u.txs, txSpec{Name: name, obj: cp, Raw: raw, Hash: cp.Hash(), Sender: s, Nonce: n, Cost: c, KIs: kis, Class: class})
 	if _, dup := u.byHash[cp.Hash()]; dup {
 		vk.Fatalf("universe: %s: duplicate hash", name)
 	}
@@ -190,7 +192,8 @@ func buildUniverse(thorough bool, cfgs []poolCfg) *universe {
 	for _, pc := range cfgs {
 		rec := kv.NewRecorder()
 		c, err := minichain.New(minichain.Options{IsTrie: true, Alloc: txkit.Alloc(initialBalance), Mempool: pc.mempool(), MempoolCache: pc.Cache,
-			NewDB: func(n string) dbm.DB { return rec.DB(n) }})
+			Fixture: csnet.NewFixture([]int64{10}), // one validator: the size of the validator set is irrelevant here, signing dominates a commit
+			NewDB:   func(n string) dbm.DB { return rec.DB(n) }})
 		if err != nil {
 			vk.Fatalf("base chain: %v", err)
 		}
@@ -229,6 +232,9 @@ func buildUniverse(thorough bool, cfgs []poolCfg) *universe {
 	u2 := u.add("u2", "conf-conflict", mk(kit.Transfer(led, txkit.W0, own[:1], 1, []txkit.Dest{txkit.ToWallet(txkit.W2, 0, txkit.LKC(60))}, 0)), true)
 	u.add("big", "oversized", txkit.Oversized(C, 0, D.Addr), true)
 	u.add("c0", "ain", mk(kit.AccountToUTXO(C, 0, []txkit.Dest{txkit.ToWallet(txkit.W2, 0, txkit.LKC(100))}, nil)), true)
+	// "underfunded" on the fee side: an account->confidential transfer of A (nonce 1) that is signed, balanced and covered by
+	// the balance, but whose fee (0) is below the required one
+	u.add("aLow", "fee-too-low", mk(kit.AccountToUTXO(A, 1, []txkit.Dest{txkit.ToWallet(txkit.W2, 1, txkit.LKC(20))}, new(big.Int))), true)
 	if thorough {
 		u.add("c1", "next", txkit.Transfer(C, 1, D.Addr, txkit.LKC(5)), true)
 		u.add("u3", "conf", mk(kit.Transfer(led, txkit.W0, own[1:2], 1, []txkit.Dest{txkit.ToWallet(txkit.W1, 1, txkit.LKC(40))}, 0)), true)
@@ -323,8 +329,11 @@ type inst struct {
 	committed map[common.Hash]bool
 	lastAdd   string // result of the last AddTx ("ok" or the error text)
 	reaps     int    // Reap outputs examined by the oracle
-	variant   int    // which permutation of the queued senders the next commit's promotion takes (0 = ascending address)
-	lastK     int    // number of queued senders the last commit's promotion had to order (k! variants exist)
+	// root-cause refinement of violation keys: the first submission in this history that was REJECTED but nevertheless
+	// changed the speculative (check) state of an account ("" = none)
+	poisoned string
+	variant  int // which permutation of the queued senders the next commit's promotion takes (0 = ascending address)
+	lastK    int // number of queued senders the last commit's promotion had to order (k! variants exist)
 }
 
 // install makes this instance the one whose promotion order the seam controls (one instance is driven at a time).
@@ -463,7 +472,27 @@ func (in *inst) executableNow(t *txSpec) bool {
 	return true
 }
 
+// pendingString: the speculative nonces and balances (what AddTx's state check reads and writes).
+func (in *inst) pendingString() string {
+	var b strings.Builder
+	for _, a := range accounts {
+		fmt.Fprintf(&b, "%d/%v ", in.c.PendingNonce(a.Addr), in.c.PendingBalance(a.Addr))
+	}
+	return b.String()
+}
+
+// rootCause refines a symptom key: a violation in a history in which a rejected submission moved the speculative state
+// is attributed to that event (one key per defect, whatever symptom it surfaces with).
+func (in *inst) rootCause(symptom, what string) (string, string) {
+	if in.poisoned == "" {
+		return symptom, what
+	}
+	return "rejected-submission-moved-speculative-state:" + in.poisoned, what + " [symptom " + symptom + "; earlier in this history AddTx returned \"" +
+		strings.ReplaceAll(in.poisoned, "-", " ") + "\" but the sender's speculative nonce/balance changed]"
+}
+
 func (in *inst) noteCommitted(b *types.Block) {
+	in.poisoned = "" // a commit rebuilds the speculative state from the committed one
 	for _, tx := range b.Data.Txs {
 		in.committed[tx.Hash()] = true
 	}
@@ -477,10 +506,14 @@ func (in *inst) apply(o op, variant int) (enabled bool, vkey, what string) {
 	defer func() { in.variant = 0 }()
 	switch o.kind {
 	case opAdd:
-		err := in.c.Mempool().AddTx("", decodeTx(u.txs[o.x].Raw))
+		before := in.pendingString()
+		err := in.c.Mempool().AddTx("", u.txs[o.x].obj)
 		in.lastAdd = "ok"
 		if err != nil {
 			in.lastAdd = err.Error()
+			if in.poisoned == "" && in.pendingString() != before {
+				in.poisoned = strings.ReplaceAll(err.Error(), " ", "-")
+			}
 		}
 	case opCommitReaped:
 		b, parts, err := in.c.MakeBlockFromMempool(o.x)
@@ -498,7 +531,7 @@ func (in *inst) apply(o op, variant int) (enabled bool, vkey, what string) {
 		if !in.executableNow(t) {
 			return false, "", ""
 		}
-		b, err := in.c.Step(types.Txs{decodeTx(t.Raw)})
+		b, err := in.c.Step(types.Txs{t.obj})
 		if err != nil {
 			vk.Fatalf("CommitOther([%s]): the model calls it executable but the chain refuses it: %v", t.Name, err)
 		}
